@@ -6,6 +6,7 @@ import RSSched.Driver.Net
 import RSSched.Driver.Tour
 import RSSched.Driver.Pipe
 import RSSched.Driver.Trans
+import RSSched.Driver.Sched
 open RSSched RSSched.Driver
 
 def processCase (text : String) : Array String :=
@@ -16,6 +17,7 @@ def processCase (text : String) : Array String :=
     | "tour" => checkTour c
     | "pipe" => checkPipe c
     | "trans" => checkTrans c
+    | "sched" => checkSched c
     | s => vnote s!"unknown scope {s}"
   let (_, v) := act.run {}
   let status := if v.fails > 0 then "fail" else if v.diffs > 0 then "diff" else "ok"
